@@ -21,6 +21,7 @@ MSG = {
     "inherent_block_in_trait_mode": "Expected trait impl, found inherent impl",
     "trait_block_in_inherent_mode": "Expected inherent impl but found trait",
     "inherent_item_sets_differ": "Not found in one of the impls",
+    "inherent_visibility_differs": "Visibility doesn't match between impls",
 }
 
 
@@ -54,6 +55,9 @@ def mutations(plan, rng):
                 for k, name, d in plan.items:
                     out.append(("inherent_item_sets_differ", (bi, name), mut(drop_item=name)))
                 out.append(("inherent_item_sets_differ", bi, mut(add_item="const EXTRA: u8 = 1;")))
+                for k, name, d in plan.items:
+                    if k in ("const", "fn", "method", "ufn", "pfn", "ltfn"):
+                        out.append(("inherent_visibility_differs", (bi, name), mut(vis_flip=name)))
     return out
 
 
